@@ -257,6 +257,10 @@ def xNatVal : List String → Option Nat
   | [n] => n.toNat?
   | _ => none
 
+def xErrPkg : String → Option ErrMsg.Pkg
+  | "date" => some .date | "sem" => some .sem | "roman" => some .roman | "uu" => some .uu | "size" => some .size
+  | _ => none
+
 def stepExtra (line : String) : String :=
   let bad := "bad-op"
   match line.splitOn " " with
@@ -267,6 +271,19 @@ def stepExtra (line : String) : String :=
     (do let v ← xSemVal [ma, mi, pa, pre, build]
         pure s!"{verStr v.core} {b01 v.isZero} {v.compare v.core} {v.core.compare v}").getD bad
   | ["sem.consts"] => s!"{hex Sem.zeroString} {hex Sem.zeroStringTag}"
+  | ["errmsg", pkg, fn, inp, cause] =>
+    (do let p ← xErrPkg pkg; let fn ← unhex fn; let inp ← unhex inp
+        if !ErrMsg.quoteModelled inp then none
+        let e ← (match cause.splitOn ":" with
+          | ["nil"] => some none
+          | ["l", l, m] => (do let l ← l.toNat?; let m ← m.toNat?; pure (some (ErrMsg.tooLongText l m)))
+          | ["t", h] => (do let t ← unhex h; pure (some t))
+          | _ => none)
+        pure s!"{hex (ErrMsg.message p fn inp e)} 1").getD bad
+  | ["errmsg.real", pkg, fn, inp, max] =>
+    (do let p ← xErrPkg pkg; let fn ← unhex fn; let inp ← unhex inp; let max ← max.toNat?
+        if max = 0 || inp.length ≤ max then none
+        pure (hex (ErrMsg.unmarshalTextTooLong p fn inp max))).getD bad
   | ["date.acc", y, m, d] =>
     (do let x ← xDateVal [y, m, d]
         let (cy, cm, cd) := x.timeCivil
